@@ -196,5 +196,50 @@ theorem step_state (cfg : Config R) (st : State) (ss : List Stanza) (a : Option 
               refine Or.inr ⟨?_, ?_, ⟨p, rfl, ho⟩, ?_, ?_, ?_⟩ <;> first | rfl | trivial
             · simp [hk]
 
+theorem run_cons (cfg : Config R) (st : State) (c : Call) (cs : List Call) :
+    run cfg st (c :: cs) =
+      ((run cfg (step cfg st c.1 c.2).1 cs).1, (step cfg st c.1 c.2).2 :: (run cfg (step cfg st c.1 c.2).1 cs).2) := rfl
+
+/-- where a cached key comes from: the state at the end of a history holds key `k`
+    only if it held it at the start, or it was locked at the start, `k` is the
+    declared key and the history splits at its FIRST unlocking call `c`: every
+    call before `c` left the state as it was (locked), `c`'s stanzas end the scan
+    in a match, its scripted answer opens the key file to the declared key pair,
+    the output of `c` (at its position in the trace) says "prompted" and carries
+    the plain identity's result, and the state after `c` holds the declared key. -/
+theorem run_cached_source (cfg : Config R) (k : KeyId) : ∀ (h : List Call) (st : State),
+    (run cfg st h).1.cached = some k →
+    st.cached = some k ∨
+    (k = cfg.declared ∧ st.cached = none ∧
+      ∃ h1 c h2, h = h1 ++ c :: h2 ∧ (run cfg st h1).1 = st ∧
+        scanStanzas cfg c.1 = .matched ∧
+        (∃ p, c.2 = some p ∧ cfg.openFile p = some (.key cfg.declared)) ∧
+        (∃ o, (run cfg st h).2[h1.length]? = some o ∧ o.prompted = true ∧
+          o.result = .delegated (cfg.innerUnwrap cfg.declared c.1)) ∧
+        (run cfg st (h1 ++ [c])).1 = ⟨some cfg.declared⟩) := by
+  intro h
+  induction h with
+  | nil => intro st hst; exact Or.inl hst
+  | cons c cs ih =>
+    intro st hst
+    rw [run_cons] at hst
+    rcases step_state cfg st c.1 c.2 with h2 | ⟨hlocked, hm, hp, h4, h5, h6⟩
+    · rw [h2] at hst
+      rcases ih st hst with h1 | ⟨hkd, hl, h1, c', h2', hsplit, hrun, hm', hp', ⟨o, ho, hop, hor⟩, hafter⟩
+      · exact Or.inl h1
+      · refine Or.inr ⟨hkd, hl, c :: h1, c', h2', by rw [hsplit]; rfl, ?_, hm', hp', ⟨o, ?_, hop, hor⟩, ?_⟩
+        · rw [run_cons, h2]; exact hrun
+        · rw [run_cons, h2]
+          simpa using ho
+        · rw [List.cons_append, run_cons, h2]; exact hafter
+    · rw [h4] at hst
+      have hk : k = cfg.declared := by
+        rcases ih _ hst with h1 | ⟨_, hl, _⟩
+        · simp only [Option.some.injEq] at h1; exact h1.symm
+        · cases hl
+      refine Or.inr ⟨hk, hlocked, [], c, cs, rfl, rfl, hm, hp, ⟨(step cfg st c.1 c.2).2, ?_, h5, h6⟩, ?_⟩
+      · rw [run_cons]; rfl
+      · rw [List.nil_append, run_cons, h4]; rfl
+
 end SshEnc
 end AgeModel
